@@ -1,7 +1,10 @@
 package main
 
 import (
+	"bufio"
 	"bytes"
+	"os"
+	"strconv"
 	"crypto/sha256"
 	"encoding/hex"
 	"fmt"
@@ -80,5 +83,68 @@ func buildMain(args []string) int {
 			hex.EncodeToString(sum[:]), buf.Len(), rec.loads, len(rec.hits), rec.stores, rec.stored, strings.Join(rec.hits, ","))
 	})
 	fmt.Println(res)
+	return 0
+}
+
+// buildseq: file-argument mode (`gopherjs build x.go` / `gopherjs run x.go` both call Session.BuildFiles; they
+// differ only in where the output file goes). Reads a script from stdin, one step per line, every build in a
+// FRESH Session, all sharing this process's cache directory:
+//
+//	clear
+//	touch <file> <seconds relative to now>
+//	build <file> <cwd> <out.js> <cache|nocache> <marker>
+func buildseqMain(args []string) int {
+	gojs.Init()
+	in := bufio.NewScanner(os.Stdin)
+	for in.Scan() {
+		w := strings.Fields(in.Text())
+		if len(w) == 0 {
+			continue
+		}
+		switch w[0] {
+		case "clear":
+			if err := cache.Clear(); err != nil {
+				die("clear: %v", err)
+			}
+			fmt.Println("ok")
+		case "touch":
+			d, _ := strconv.Atoi(w[2])
+			t := time.Now().Add(time.Duration(d) * time.Second)
+			if err := os.Chtimes(w[1], t, t); err != nil {
+				die("touch: %v", err)
+			}
+			fmt.Println("ok")
+		case "build":
+			file, cwd, out, mode, marker := w[1], w[2], w[3], w[4], w[5]
+			fmt.Println(guarded(func() string {
+				s, err := build.NewSession(&build.Options{NoCache: mode == "nocache"})
+				if err != nil {
+					return "error:newsession:" + err.Error()
+				}
+				rec := &recCache{}
+				if mode == "cache" {
+					rec.bc = s.VerifDefaultBuildCache()
+					s.VerifSetBuildCache(rec)
+				}
+				if err := s.BuildFiles([]string{file}, out, cwd); err != nil {
+					return "error:buildfiles:" + strings.ReplaceAll(err.Error(), "\n", " ")
+				}
+				js, err := os.ReadFile(out)
+				if err != nil {
+					return "error:read:" + err.Error()
+				}
+				sum := sha256.Sum256(js)
+				has := 0
+				if bytes.Contains(js, []byte(marker)) {
+					has = 1
+				}
+				sort.Strings(rec.hits)
+				return fmt.Sprintf("js sha256=%s marker=%d loads=%d hits=%d stored=%d hitlist=%s",
+					hex.EncodeToString(sum[:]), has, rec.loads, len(rec.hits), rec.stored, strings.Join(rec.hits, ","))
+			}))
+		default:
+			die("buildseq: bad step %q", in.Text())
+		}
+	}
 	return 0
 }
